@@ -1,6 +1,8 @@
 /- Driver ops for GraphColoring.  Ops: graph_coloring.{step,state,judge,instance}; cfg = {"n": num_nodes} -/
 import JumanjiModel.Bridge.Json
 import JumanjiModel.Env.GraphColoring.Model
+import JumanjiModel.Env.GraphColoring.Bounds
+import JumanjiModel.Bridge.PuzzleBounds
 open Lean Jb
 
 namespace Jb.GraphColoring
@@ -76,7 +78,14 @@ def opInstance : Op := fun j => do
               ("reset_inv", jBool (decide (Inv n s))),
               ("generate_fixpoint", jBool (decide (generate n s.adj = s.adj)))])
 
+/-- C01 bounds op: {"cfg": {"n"}} → the proved interval of every observation leaf -/
+def opBounds : Op := fun j => do
+  let cfg ← field j "cfg"
+  let n ← fNat cfg "n"
+  pure (jBoundsTable (obsBounds n))
+
 def ops : List (String × Op) :=
   [("graph_coloring.step", opStep), ("graph_coloring.state", opState),
-   ("graph_coloring.judge", opJudge), ("graph_coloring.instance", opInstance)]
+   ("graph_coloring.judge", opJudge), ("graph_coloring.instance", opInstance),
+   ("graph_coloring.bounds", opBounds)]
 end Jb.GraphColoring
